@@ -3,6 +3,7 @@ package harness
 // C18 — NTP time mapping and send-time estimation recover the original instant.
 
 import (
+	"math/bits"
 	"testing"
 	"time"
 
@@ -164,7 +165,13 @@ func genTimeCase(t *rapid.T) *TimeCase {
 	c := &TimeCase{}
 	const wrap = int64(64_000_000_000)
 	base1900 := int64(ntp.EpochOffset) * 1_000_000_000
-	switch rapid.IntRange(0, 5).Draw(t, "tmode") {
+	switch rapid.IntRange(0, 6).Draw(t, "tmode") {
+	case 6:
+		// at the edges of a 2^-18 s cell of the 24-bit field: the first and the last nanosecond of cell k
+		k := rapid.Int64Range(1, eraEndNs/3815-2).Draw(t, "cellk")
+		hi, lo := bits.Mul64(uint64(k), 1_000_000_000)
+		q, _ := bits.Div64(hi, lo, 1<<18) // floor(k * 10^9 / 2^18): the last whole nanosecond before cell k starts (or its first)
+		c.T = int64(q) + rapid.SampledFrom([]int64{-1, 0, 1, 2}).Draw(t, "celldelta")
 	case 0:
 		c.T = rapid.Int64Range(0, eraEndNs-1).Draw(t, "t")
 	case 1, 2:
@@ -231,7 +238,7 @@ func genTimeCase(t *rapid.T) *TimeCase {
 	return c
 }
 
-const ruleC18 = "rapid draws (instant, delay, offset): instants in [1970, NTP era end 2036) uniformly, within +-5 ms (and at +-{0,1,2,3814,3815,3816} ns) of 64 s wrap points of the 24-bit field, at whole seconds +-2 ns, at the era edges; delays in [0, 64 s - 3815 ns] incl. 0, max and values that carry the receive time just across a wrap; offsets in (-2^31 s, 2^31 s) incl. 0, +-1 ns, +-(2^31 s - 1 ns), whole seconds; the time.Time values carry the default location or (half of the cases) a fixed-offset zone between -14 h and +14 h, independently for the send and the receive instant. Oracle (integer/big.Int arithmetic only): |CaptureTime(New(t)) - t| <= 1 ns, offset recovered within 1 ns with its sign (read twice, and once more after a by-value copy of the extension decoded other bytes), -1 ns <= t - Estimate(t+d) <= 3816 ns for the 24-bit wire value and the unmasked constructor value, NTP/6.18 encodings equal the exact big.Int reference. Non-trivial = receive time in another 64 s window than the send time, or non-zero offset; distinct = FNV-64 of the JSON case"
+const ruleC18 = "rapid draws (instant, delay, offset): instants in [1970, NTP era end 2036) uniformly, within +-5 ms (and at +-{0,1,2,3814,3815,3816} ns) of 64 s wrap points of the 24-bit field, at whole seconds +-2 ns, at the first/last nanoseconds of 2^-18 s cells of the field, at the era edges; delays in [0, 64 s - 3815 ns] incl. 0, max and values that carry the receive time just across a wrap; offsets in (-2^31 s, 2^31 s) incl. 0, +-1 ns, +-(2^31 s - 1 ns), whole seconds; the time.Time values carry the default location or (half of the cases) a fixed-offset zone between -14 h and +14 h, independently for the send and the receive instant. Oracle (integer/big.Int arithmetic only): |CaptureTime(New(t)) - t| <= 1 ns, offset recovered within 1 ns with its sign (read twice, and once more after a by-value copy of the extension decoded other bytes), -1 ns <= t - Estimate(t+d) <= 3816 ns for the 24-bit wire value and the unmasked constructor value, NTP/6.18 encodings equal the exact big.Int reference. Non-trivial = receive time in another 64 s window than the send time, or non-zero offset; distinct = FNV-64 of the JSON case"
 
 func TestC18(t *testing.T) {
 	r := begin(t, "C18", "exploration", ruleC18)
